@@ -172,6 +172,19 @@ class Interp:
                         out.append((T('index', base, i), s2))
         return out
 
+    def ev_Slice(self, e, st):
+        acc = [((), st)]
+        for part in (e.lower, e.upper, e.step):
+            nxt = []
+            for vals, s in acc:
+                if part is None:
+                    nxt.append((vals + (C(None),), s))
+                else:
+                    for v, s2 in self.ev(part, s):
+                        nxt.append((vals + (v,), s2))
+            acc = nxt
+        return [(T('slice3', *vals), s) for vals, s in acc]
+
     def ev_Tuple(self, e, st):
         return self._ev_seq(e.elts, st, 'tuple')
 
